@@ -19,13 +19,14 @@ import (
 
 // Case is one source under one configuration with its exported program.
 type Case struct {
-	Src  *Src
-	Text string
-	Job  Job
-	Prog *XProg
-	Cfg  string
-	Full string // real source text when Text is a generator name (boundary programs)
-	Alt  *XProg // companion program: the same source and options compiled WITHOUT ReportEvent (C12), or the recompiled Dump (C13)
+	Src   *Src
+	Text  string
+	Job   Job
+	Prog  *XProg
+	Cfg   string
+	group *caseGroup
+	Full  string // real source text when Text is a generator name (boundary programs)
+	Alt   *XProg // companion program: the same source and options compiled WITHOUT ReportEvent (C12), or the recompiled Dump (C13)
 }
 
 // Checker is the state of one engine run.
@@ -36,18 +37,12 @@ type Checker struct {
 	MaxPaths int
 
 	mu          sync.Mutex
-	unrolled    map[string]*unrollEntry
 	values      map[string][]string // obligation name -> get-value terms
 	nPaths      int64
 	nUnroll     int64
 	nCached     int64
 	nOver       int64
 	nSameAsBase int64
-}
-
-type unrollEntry struct {
-	once sync.Once
-	u    *Unrolled
 }
 
 // Unrolled is the set of paths of one unrolling of the real code.
@@ -57,13 +52,12 @@ type Unrolled struct {
 }
 
 func NewChecker(env *core.Env, m *Machine, prop string) *Checker {
-	return &Checker{env: env, m: m, prop: prop, MaxPaths: 30000, unrolled: map[string]*unrollEntry{}, values: map[string][]string{}}
+	return &Checker{env: env, m: m, prop: prop, MaxPaths: 30000, values: map[string][]string{}}
 }
 
 // dropChunk releases what is only needed while a chunk of sources is processed.
 func (cx *Checker) dropChunk() {
 	cx.mu.Lock()
-	cx.unrolled = map[string]*unrollEntry{}
 	cx.values = map[string][]string{}
 	cx.mu.Unlock()
 }
@@ -77,29 +71,37 @@ func (cx *Checker) fn(method string) *ssa.Function {
 
 func domKey(d *Domain) string { return fmt.Sprintf("b%v.a%v.n%v", d.AllBound, d.AllAvail, d.NoNil) }
 
-// Unroll enumerates the paths of method on p (cached by program fingerprint).
-func (cx *Checker) Unroll(p *XProg, method string, dom *Domain) *Unrolled {
+// Unroll enumerates the paths of method on the case's program. The result is
+// cached by program fingerprint within the group of cases of one source (the
+// optimisation subsets and cost maps of a source often compile to the same program).
+func (cx *Checker) Unroll(c *Case, method string, dom *Domain) *Unrolled {
+	p := c.Prog
 	key := method + "|" + p.FP + "|" + domKey(dom)
-	cx.mu.Lock()
-	e := cx.unrolled[key]
-	if e == nil {
-		e = &unrollEntry{}
-		cx.unrolled[key] = e
-	} else {
-		cx.nCached++
+	if c.group != nil {
+		if u, ok := c.group.unrolled[key]; ok {
+			cx.mu.Lock()
+			cx.nCached++
+			cx.mu.Unlock()
+			return u
+		}
 	}
-	cx.mu.Unlock()
-	e.once.Do(func() {
-		outs, trunc := EnumeratePaths(dom, cx.MaxPaths, func(r *Path) interface{} {
-			return cx.m.Exec(r, cx.fn(method), p, nil)
-		})
-		e.u = &Unrolled{Paths: outs, Trunc: trunc}
-		cx.mu.Lock()
-		cx.nPaths += int64(len(outs))
-		cx.nUnroll++
-		cx.mu.Unlock()
+	outs, trunc := EnumeratePaths(dom, cx.MaxPaths, func(r *Path) interface{} {
+		return cx.m.Exec(r, cx.fn(method), p, nil)
 	})
-	return e.u
+	u := &Unrolled{Paths: outs, Trunc: trunc}
+	cx.mu.Lock()
+	cx.nPaths += int64(len(outs))
+	cx.nUnroll++
+	cx.mu.Unlock()
+	if c.group != nil {
+		c.group.unrolled[key] = u
+	}
+	return u
+}
+
+// caseGroup: the cases of one source, processed sequentially by one goroutine.
+type caseGroup struct {
+	unrolled map[string]*Unrolled
 }
 
 // ---------------------------------------------------------------- query assembly
@@ -166,8 +168,7 @@ func BuildQuery(dom *Domain, defs *Defs, extra []*T, bad []*T) (text string, val
 }
 
 func oblName(rel, cfg, src string) string {
-	src = strings.NewReplacer("\n", "\\n", "\t", "\\t", "\r", "\\r").Replace(src)
-	return "bnd/" + rel + "/" + cfg + "/" + src
+	return "bnd/" + rel + "/" + cfg + "/" + strings.NewReplacer("\n", "\\n", "\t", "\\t", "\r", "\\r").Replace(src)
 }
 
 func (cx *Checker) newObl(rel string, c *Case) *core.Obl {
@@ -248,15 +249,15 @@ func (cx *Checker) WFObl(c *Case) *core.Obl {
 	case c.Prog.Panic != "":
 		o.Status = core.Refuted
 		o.Detail = "panic: " + c.Prog.Panic
-		o.Witness = fmt.Sprintf("src=%s cfg=%s: %s", c.Text, c.Cfg, c.Prog.Panic)
+		o.Witness = fmt.Sprintf("src=%s cfg=%s: %s", escSrc(c.Text), c.Cfg, c.Prog.Panic)
 	case c.Prog.Err != "":
 		o.Status = core.Refuted
 		o.Detail = "compile error: " + c.Prog.Err
-		o.Witness = fmt.Sprintf("src=%s cfg=%s: Compile returned %q", c.Text, c.Cfg, c.Prog.Err)
+		o.Witness = fmt.Sprintf("src=%s cfg=%s: Compile returned %q", escSrc(c.Text), c.Cfg, c.Prog.Err)
 	case len(c.Prog.WF) > 0:
 		o.Status = core.Refuted
 		o.Detail = strings.Join(c.Prog.WF, "; ")
-		o.Witness = fmt.Sprintf("src=%s cfg=%s: WF violated: %s", c.Text, c.Cfg, o.Detail)
+		o.Witness = fmt.Sprintf("src=%s cfg=%s: WF violated: %s", escSrc(c.Text), c.Cfg, o.Detail)
 	default:
 		discharge(o, "driver")
 	}
@@ -314,7 +315,7 @@ func (cx *Checker) setMethod(o *core.Obl, method string) {
 // EvalLR: Eval(P) = LR(src): same error identity, and the same value when LR succeeds.
 func (cx *Checker) EvalLR(c *Case) []*core.Obl {
 	dom := &Domain{}
-	un := cx.Unroll(c.Prog, "Eval", dom)
+	un := cx.Unroll(c, "Eval", dom)
 	defs := NewDefs()
 	rf := NewRef(nil, defs)
 	lv, le := rf.LR(c.Src)
@@ -343,11 +344,11 @@ func (cx *Checker) DirectiveObl(c *Case, dir *XProg) *core.Obl {
 	case !dir.OK():
 		o.Status = core.Refuted
 		o.Detail = "directive form does not compile: " + dir.Err + dir.Panic
-		o.Witness = fmt.Sprintf("src=%s cfg=%s: options compile, directive form fails: %s%s", c.Text, c.Cfg, dir.Err, dir.Panic)
+		o.Witness = fmt.Sprintf("src=%s cfg=%s: options compile, directive form fails: %s%s", escSrc(c.Text), c.Cfg, dir.Err, dir.Panic)
 	case dir.FP != c.Prog.FP || dir.Dump != c.Prog.Dump:
 		o.Status = core.Refuted
 		o.Detail = "programs differ"
-		o.Witness = fmt.Sprintf("src=%s cfg=%s: options map gives %s, directive gives %s", c.Text, c.Cfg, oneLine(c.Prog.Dump), oneLine(dir.Dump))
+		o.Witness = fmt.Sprintf("src=%s cfg=%s: options map gives %s, directive gives %s", escSrc(c.Text), c.Cfg, oneLine(c.Prog.Dump), oneLine(dir.Dump))
 	default:
 		discharge(o, "driver")
 	}
@@ -364,7 +365,7 @@ func oneLine(s string) string { return strings.Join(strings.Fields(s), " ") }
 //	LR-if-value: Reordering off and LR(src) is a value => Eval(P_c) = LR(src)
 func (cx *Checker) C02(c *Case, rels []string) []*core.Obl {
 	dom := &Domain{AllBound: true}
-	un := cx.Unroll(c.Prog, "Eval", dom)
+	un := cx.Unroll(c, "Eval", dom)
 	var out []*core.Obl
 	for _, rel := range rels {
 		defs := NewDefs()
@@ -488,7 +489,7 @@ func (cx *Checker) Trace(c *Case) []*core.Obl {
 		if perr != nil || !inAlphabet(d) {
 			o.Status = core.Refuted
 			o.Detail = err.Error()
-			o.Witness = fmt.Sprintf("src=%s cfg=%s: %v (dump: %s)", c.Text, c.Cfg, err, oneLine(c.Prog.Dump))
+			o.Witness = fmt.Sprintf("src=%s cfg=%s: %v (dump: %s)", escSrc(c.Text), c.Cfg, err, oneLine(c.Prog.Dump))
 			return []*core.Obl{o}
 		}
 		dt = PlainTree(d)
@@ -734,7 +735,7 @@ func (cx *Checker) TryMono(c *Case) []*core.Obl {
 // otherwise (DNE,nil) or a definite value -- never an error, never nil.
 func (cx *Checker) TryK(c *Case) []*core.Obl {
 	dom := &Domain{NoNil: true}
-	un := cx.Unroll(c.Prog, "TryEval", dom)
+	un := cx.Unroll(c, "TryEval", dom)
 	defs := NewDefs()
 	rf := NewRef(nil, defs)
 	Kt := defs.Define("K", rf.K(c.Src))
@@ -761,7 +762,7 @@ func (cx *Checker) CompileCalls(c *Case) *core.Obl {
 	o.Detail = fmt.Sprintf("invocations during Compile: %v", c.Prog.Calls)
 	if n > 0 {
 		o.Status = core.Refuted
-		o.Witness = fmt.Sprintf("src=%s cfg=%s: undeclared custom operator invoked during Compile: %v", c.Text, c.Cfg, c.Prog.Calls)
+		o.Witness = fmt.Sprintf("src=%s cfg=%s: undeclared custom operator invoked during Compile: %v", escSrc(c.Text), c.Cfg, c.Prog.Calls)
 		return o
 	}
 	return discharge(o, "driver")
@@ -804,7 +805,7 @@ func (cx *Checker) EvalTwice(c *Case) []*core.Obl {
 // if the failing sub-expression is reached), and values agree (C02 iii).
 func (cx *Checker) ErrReached(c *Case, full bool) []*core.Obl {
 	dom := &Domain{AllBound: true}
-	un := cx.Unroll(c.Prog, "Eval", dom)
+	un := cx.Unroll(c, "Eval", dom)
 	defs := NewDefs()
 	rf := NewRef(nil, defs)
 	lv, le := rf.LR(c.Src)
@@ -835,13 +836,13 @@ func (cx *Checker) EvDump(c *Case) *core.Obl {
 	if !c.Alt.OK() {
 		o.Status = core.Refuted
 		o.Detail = "the program compiles with ReportEvent but not without: " + c.Alt.Err + c.Alt.Panic
-		o.Witness = fmt.Sprintf("src=%s cfg=%s: %s", c.Text, c.Cfg, o.Detail)
+		o.Witness = fmt.Sprintf("src=%s cfg=%s: %s", escSrc(c.Text), c.Cfg, o.Detail)
 		return o
 	}
 	if c.Alt.Dump != c.Prog.Dump {
 		o.Status = core.Refuted
 		o.Detail = "Dump differs"
-		o.Witness = fmt.Sprintf("src=%s cfg=%s: Dump with events %q, without %q", c.Text, c.Cfg, oneLine(c.Prog.Dump), oneLine(c.Alt.Dump))
+		o.Witness = fmt.Sprintf("src=%s cfg=%s: Dump with events %q, without %q", escSrc(c.Text), c.Cfg, oneLine(c.Prog.Dump), oneLine(c.Alt.Dump))
 		return o
 	}
 	return discharge(o, "driver")
@@ -929,7 +930,7 @@ func (cx *Checker) Events(c *Case) []*core.Obl {
 		for _, o := range []*core.Obl{oOp, oIn, oLoop} {
 			o.Status = core.Refuted
 			o.Detail = err.Error()
-			o.Witness = fmt.Sprintf("src=%s cfg=%s: %v", c.Text, c.Cfg, err)
+			o.Witness = fmt.Sprintf("src=%s cfg=%s: %v", escSrc(c.Text), c.Cfg, err)
 		}
 		return []*core.Obl{oOp, oIn, oLoop}
 	}
@@ -1089,14 +1090,14 @@ func (cx *Checker) Redump(c *Case) []*core.Obl {
 		}
 		oc.Status = core.Refuted
 		oc.Detail = "Dump text does not compile: " + msg
-		oc.Witness = fmt.Sprintf("src=%s cfg=%s: Dump text %q does not compile: %s", c.Text, c.Cfg, c.Prog.Dump, msg)
+		oc.Witness = fmt.Sprintf("src=%s cfg=%s: Dump text %q does not compile: %s", escSrc(c.Text), c.Cfg, c.Prog.Dump, msg)
 		return []*core.Obl{oc}
 	}
 	discharge(oc, "driver")
 	if re.Dump != c.Prog.Dump {
 		ot.Status = core.Refuted
 		ot.Detail = "second Dump differs"
-		ot.Witness = fmt.Sprintf("src=%s cfg=%s: Dump %q, Dump of the recompiled program %q", c.Text, c.Cfg, c.Prog.Dump, re.Dump)
+		ot.Witness = fmt.Sprintf("src=%s cfg=%s: Dump %q, Dump of the recompiled program %q", escSrc(c.Text), c.Cfg, c.Prog.Dump, re.Dump)
 	} else {
 		discharge(ot, "driver")
 	}
